@@ -252,6 +252,11 @@ func (c *concretiser) respDirectives(a *Ans) []directive {
 	if a.Sp == 4 || a.Sp == 6 {
 		ds = append(ds, c.sharedCacheNoise(a.Ma)...)
 	}
+	if a.Ma == 0 && (a.Sp == 2 || a.Sp == 3) {
+		// a directive given twice: the first occurrence is used, or the response is considered stale (RFC 9111 4.2.1) -
+		// after "max-age=0" both readings say the same (these two spellings keep the order of the list)
+		ds = append(ds, directive{"max-age", "3600", true})
+	}
 	return ds
 }
 
